@@ -104,6 +104,29 @@ pub enum Family {
     Identity,
     Random,
     ConstantOfShape,
+    // --- appended for the operator-level checks (vc-ops); only `Profile::all_ops()` selects these ---
+    UnaryF2,
+    IsNanInf,
+    ModPow,
+    Variadic,
+    BinaryBcast,
+    GatherEl,
+    ScatterF,
+    OneHot,
+    TopK,
+    NonZero,
+    Trilu,
+    Range,
+    EyeLike,
+    DepthToSpace,
+    Norm2,
+    ResizeF,
+    Quant,
+    Seq,
+    Misc,
+    Rnn,
+    Attn,
+    LayoutAny,
 }
 
 /// Which op families a check wants, with weights.
@@ -187,6 +210,39 @@ impl Profile {
             allow_empty_dims: false,
             max_dim: 5,
         }
+    }
+    /// Every family, including the ones appended for the operator-level
+    /// checks (C12-C14). Values may contain NaN/inf (IsNaN/IsInf inputs), so
+    /// this profile is not meant for tolerance-based differential checks.
+    pub fn all_ops() -> Profile {
+        use Family::*;
+        let mut p = Profile::general();
+        p.families.extend_from_slice(&[
+            (2, Random),
+            (4, UnaryF2),
+            (1, IsNanInf),
+            (3, ModPow),
+            (3, Variadic),
+            (6, BinaryBcast),
+            (3, GatherEl),
+            (3, ScatterF),
+            (2, OneHot),
+            (2, TopK),
+            (1, NonZero),
+            (2, Trilu),
+            (1, Range),
+            (1, EyeLike),
+            (1, DepthToSpace),
+            (5, Norm2),
+            (3, ResizeF),
+            (5, Quant),
+            (6, Seq),
+            (6, Misc),
+            (2, Rnn),
+            (4, Attn),
+            (4, LayoutAny),
+        ]);
+        p
     }
     pub fn with_random(mut self) -> Profile {
         self.families.push((6, Family::Random));
@@ -1351,9 +1407,12 @@ impl<'a> Builder<'a> {
                 }
                 true
             }
+            other => self.apply_ext(other, raw),
         }
     }
 }
+
+mod ext;
 
 fn dim_size(raw: u8, profile: &Profile) -> usize {
     // biased towards small sizes; 0 only when allowed
